@@ -59,3 +59,18 @@ Proof. vm_compute. auto. Qed.
 Print Assumptions C07_every_code_has_template.
 Print Assumptions C07_site_arity.
 Print Assumptions C07_bare_codes_have_no_placeholders.
+
+(* ---------- part B: the enum-rule scanner and its consumers never end in an internal panic
+   (empty stack, slice out of range, json.Guess on an unclassifiable literal, a foreign
+   error); model Enum/EnumScanner.v ---------- *)
+From JS Require Enum.EnumScanner Enum.EnumProofs.
+
+Theorem C07_enum_scanner_no_panic :
+  (forall lc bs, snd (EnumScanner.scan lc bs) <> EnumScanner.Panic) /\
+  (forall bs, fst (EnumScanner.enum_len bs) <> EnumScanner.VPanic) /\
+  (forall bs, EnumScanner.enum_check bs <> EnumScanner.VPanic).
+Proof.
+  exact (conj EnumProofs.enum_scan_no_panic
+          (conj EnumProofs.enum_len_no_panic EnumProofs.enum_check_no_panic)).
+Qed.
+Print Assumptions C07_enum_scanner_no_panic.
